@@ -265,14 +265,29 @@ def check_include_recursion(chk):
     if not reaches:
         chk.ok("G-HAZ.recursion", key, {"note": "parse_include is not recursive"})
         return
-    # a visited-set test: any container insert/find/count on the include path that dominates the nested parse
-    guards = []
-    for n in walk(pi["body"]):
-        c = n.get("callee") or {}
-        if c.get("name") in ("count", "find", "insert", "emplace", "contains", "add_or_throw"):
-            guards.append(c.get("name"))
-    if guards:
-        chk.ok("G-HAZ.recursion", key, {"visited_test": guards})
+    # a visited-set test: the construction of the nested parser is dominated by a membership test on a member
+    # container whose failing arm leaves the function, and what the nested parser knows includes what this one knows
+    # (the member is handed over: constructor argument, assignment or insert on the nested object)
+    par = gen.parents(pi)
+    nested = [n for n in walk(pi["body"]) if n.get("k") == "VarDecl" and "schema_parser" in (n.get("t") or "")]
+    guards, handed = [], False
+    for n in nested:
+        for g in gguard.guard_of(pi, n, par):
+            if re.search(r"\b(find|count|contains)\(", g) or "add_or_throw" in g:
+                guards.append(g)
+        nm = n.get("name")
+        for x in walk(pi["body"]):
+            c = x.get("callee") or {}
+            if c.get("name") in ("insert", "push_back", "emplace_back", "operator=", "assign", "merge") and nm and nm in gen.expr_text(x, 0, pi):
+                handed = True
+        if len((n.get("init") or {}).get("args") or []) > 3:
+            handed = True
+    if guards and handed:
+        chk.ok("G-HAZ.recursion", key, {"visited_test": guards[:2], "state_handed_to_nested_parser": True})
+    elif guards:
+        chk.violation("G-HAZ.recursion", key, where,
+                      "parse_include tests %s before recursing but does not hand its include chain to the nested parser: "
+                      "only direct self-inclusion is caught" % guards[:1])
     else:
         chk.violation("G-HAZ.recursion", key, where,
                       "parse_include recurses into a nested schema_parser for every <include href> without an include "
